@@ -200,6 +200,13 @@ class SccCaptionParagraph:
     if new_cursor_position < 0:
       self._current_line.indent(new_cursor_position)
 
+    skipped = new_cursor_position - self._current_line.get_length()
+
+    if skipped > 0:
+      # the cells the cursor skips beyond the end of the text stay empty on the screen: keep them as space characters
+      self._current_line.set_cursor(self._current_line.get_length())
+      self._current_line.add_text(" " * skipped)
+
     self._current_line.set_cursor(new_cursor_position)
 
   def get_lines(self) -> Dict[int, SccCaptionLine]:
